@@ -36,6 +36,9 @@ V = {
     "where_dup": '#[::entrait::entrait(pub A15)]\npub mod m15 {\n    pub fn a<T>(deps: &impl ::core::any::Any, t: T) where T: ::core::fmt::Display, T: ::core::fmt::Debug, T: Clone, T: Send {}\n    pub fn b<T>(deps: &impl ::core::any::Any, t: T) where T: ::core::fmt::Display, T: ::core::fmt::Debug, T: Clone, T: Send {}\n}',
     # a DYNAMIC delegation whose target trait is named like the static one of "traitimpl" (the impl block of "implblock" belongs to that one)
     "traitimpl_dyn_same_name": 'pub mod other {\n#[::entrait::entrait(A4Impl, delegate_by = ref)]\npub trait A4d { fn m(&self, a: i64, b: i64) -> i64; }\n}',
+    # two functions with token-identical parameter lists; only in the first is a parameter named like the function
+    "same_params_a": '#[::entrait::entrait(A16)]\nfn limit(deps: &impl ::core::any::Any, limit: i64, value: i64) -> i64 { limit.min(value) }',
+    "same_params_b": '#[::entrait::entrait(A17)]\nfn at_most(deps: &impl ::core::any::Any, limit: i64, value: i64) -> i64 { limit.min(value) }',
     "rename": '#[::entrait::entrait(A9)]\nfn a9(deps: &impl ::core::any::Any, a9: i64, a9_: i64, a9__: i64, (u, v): (u8, u8)) {}',
 }
 VN = list(V)
